@@ -26,27 +26,25 @@ Import ListNotations.
 Local Open Scope Z_scope.
 
 (** * Cell ids --------------------------------------------------------------- *)
-Theorem valid_id_is_odd_multiple_of_power_of_four : forall c, valid c -> exists s, cellform c s.
-Proof. exact valid_cellform. Qed.
-Print Assumptions valid_id_is_odd_multiple_of_power_of_four.
+Theorem valid_ids_are_the_odd_multiples_of_powers_of_four : forall c, valid c <-> exists s, cellform c s.
+Proof. intros c. split; [exact (valid_cellform c)|intros [s H]; exact (cellform_valid c s H)]. Qed.
+Print Assumptions valid_ids_are_the_odd_multiples_of_powers_of_four.
 
-Theorem odd_multiple_of_power_of_four_is_valid : forall c s, cellform c s -> valid c.
-Proof. exact cellform_valid. Qed.
-Print Assumptions odd_multiple_of_power_of_four_is_valid.
 
-Theorem leaf_ids_are_the_odd_ids : forall x, u64 x -> (s2_CellID_IsLeaf x = true <-> leaf x).
-Proof. exact isleaf_spec. Qed.
-Print Assumptions leaf_ids_are_the_odd_ids.
+Theorem leaf_ids_are_the_odd_ids_and_level_is_thirty_minus_height :
+  (forall x, u64 x -> (s2_CellID_IsLeaf x = true <-> leaf x)) /\
+  (forall c s, cellform c s -> s2_CellID_Level c = 30 - s).
+Proof. split; [exact isleaf_spec|exact level_form]. Qed.
+Print Assumptions leaf_ids_are_the_odd_ids_and_level_is_thirty_minus_height.
 
-Theorem cells_are_nested_or_disjoint : forall c d, valid c -> valid d ->
-  nested_in c d \/ nested_in d c \/ rmax c < rmin d \/ rmax d < rmin c.
-Proof. exact laminar. Qed.
-Print Assumptions cells_are_nested_or_disjoint.
+Theorem cells_are_nested_or_disjoint_and_contains_is_nesting :
+  (forall c d, valid c -> valid d ->
+  nested_in c d \/ nested_in d c \/ rmax c < rmin d \/ rmax d < rmin c) /\
+  (forall c o, valid c -> valid o ->
+  (s2_CellID_Contains c o = true <-> nested_in o c)).
+Proof. split; [exact laminar|exact contains_nested]. Qed.
+Print Assumptions cells_are_nested_or_disjoint_and_contains_is_nesting.
 
-Theorem cell_contains_iff_ranges_nested : forall c o, valid c -> valid o ->
-  (s2_CellID_Contains c o = true <-> nested_in o c).
-Proof. exact contains_nested. Qed.
-Print Assumptions cell_contains_iff_ranges_nested.
 
 Theorem children_tile_their_parent : forall p, valid p -> ~ leaf p ->
   exists a b c d, s2_CellID_Children p = [a; b; c; d] /\ tiles4 p a b c d /\
@@ -62,14 +60,11 @@ Proof. exact siblings_tiles. Qed.
 Print Assumptions areSiblings_accepts_only_the_four_children.
 
 (** * Normalize -------------------------------------------------------------- *)
-Theorem normalize_leaves : forall cu, Forall valid cu ->
-  forall x, leaf x -> (cov (cu_Normalize cu) x <-> cov cu x).
-Proof. intros cu V. exact (proj2 (normalize_spec cu V)). Qed.
-Print Assumptions normalize_leaves.
+Theorem normalize_normal_and_leaves : forall cu, Forall valid cu ->
+  normal (cu_Normalize cu) /\ (forall x, leaf x -> (cov (cu_Normalize cu) x <-> cov cu x)).
+Proof. exact normalize_spec. Qed.
+Print Assumptions normalize_normal_and_leaves.
 
-Theorem normalize_normal : forall cu, Forall valid cu -> normal (cu_Normalize cu).
-Proof. intros cu V. exact (proj1 (normalize_spec cu V)). Qed.
-Print Assumptions normalize_normal.
 
 Theorem normal_has_no_four_children : forall l, normal l -> NSset l.
 Proof. exact normal_NSset. Qed.
@@ -85,40 +80,35 @@ Theorem normal_unique : forall N1 N2, normal N1 -> normal N2 ->
 Proof. exact C11_Unique.normal_unique. Qed.
 Print Assumptions normal_unique.
 
-Theorem normalize_canonical : forall a b, Forall valid a -> Forall valid b ->
-  (forall x, leaf x -> (cov a x <-> cov b x)) -> cu_Normalize a = cu_Normalize b.
-Proof. exact C11_Unique.normalize_canonical. Qed.
-Print Assumptions normalize_canonical.
+Theorem normalize_canonical_idempotent_fixes_normal :
+  (forall a b, Forall valid a -> Forall valid b ->
+  (forall x, leaf x -> (cov a x <-> cov b x)) -> cu_Normalize a = cu_Normalize b) /\
+  (forall cu, Forall valid cu ->
+  cu_Normalize (cu_Normalize cu) = cu_Normalize cu) /\
+  (forall l, normal l -> cu_Normalize l = l).
+Proof. split; [exact C11_Unique.normalize_canonical|split; [exact C11_Unique.normalize_idempotent|exact normalize_fixpoint]]. Qed.
+Print Assumptions normalize_canonical_idempotent_fixes_normal.
 
-Theorem normalize_idempotent : forall cu, Forall valid cu ->
-  cu_Normalize (cu_Normalize cu) = cu_Normalize cu.
-Proof. exact C11_Unique.normalize_idempotent. Qed.
-Print Assumptions normalize_idempotent.
 
-Theorem normalize_fixes_normal : forall l, normal l -> cu_Normalize l = l.
-Proof. exact normalize_fixpoint. Qed.
-Print Assumptions normalize_fixes_normal.
 
 (** * Membership tests ------------------------------------------------------- *)
-Theorem contains_cellid_spec : forall cu id, normal cu -> valid id ->
-  (cu_ContainsCellID cu id = true <-> covered cu id).
-Proof. exact C11_Search.contains_cellid_spec. Qed.
-Print Assumptions contains_cellid_spec.
+Theorem contains_and_intersects_cellid_spec :
+  (forall cu id, normal cu -> valid id ->
+  (cu_ContainsCellID cu id = true <-> covered cu id)) /\
+  (forall cu id, sorted_cu cu -> valid id ->
+  (cu_IntersectsCellID cu id = true <-> exists x, leaf x /\ covers id x /\ cov cu x)).
+Proof. split; [exact C11_Search.contains_cellid_spec|exact C11_Search.intersects_cellid_spec]. Qed.
+Print Assumptions contains_and_intersects_cellid_spec.
 
-Theorem intersects_cellid_spec : forall cu id, sorted_cu cu -> valid id ->
-  (cu_IntersectsCellID cu id = true <-> exists x, leaf x /\ covers id x /\ cov cu x).
-Proof. exact C11_Search.intersects_cellid_spec. Qed.
-Print Assumptions intersects_cellid_spec.
 
-Theorem contains_union_spec : forall cu o, normal cu -> Forall valid o ->
-  (cu_Contains cu o = true <-> forall x, leaf x -> cov o x -> cov cu x).
-Proof. exact C11_Search.contains_union_spec. Qed.
-Print Assumptions contains_union_spec.
+Theorem contains_and_intersects_union_spec :
+  (forall cu o, normal cu -> Forall valid o ->
+  (cu_Contains cu o = true <-> forall x, leaf x -> cov o x -> cov cu x)) /\
+  (forall cu o, Forall valid cu -> sorted_cu o ->
+  (cu_Intersects cu o = true <-> exists x, leaf x /\ cov cu x /\ cov o x)).
+Proof. split; [exact C11_Search.contains_union_spec|exact C11_Search.intersects_union_spec]. Qed.
+Print Assumptions contains_and_intersects_union_spec.
 
-Theorem intersects_union_spec : forall cu o, Forall valid cu -> sorted_cu o ->
-  (cu_Intersects cu o = true <-> exists x, leaf x /\ cov cu x /\ cov o x).
-Proof. exact C11_Search.intersects_union_spec. Qed.
-Print Assumptions intersects_union_spec.
 
 (** * Set operations --------------------------------------------------------- *)
 Theorem union_leaves : forall cus, Forall (Forall valid) cus ->
@@ -127,15 +117,14 @@ Theorem union_leaves : forall cus, Forall (Forall valid) cus ->
 Proof. exact C11_SetOps.union_spec. Qed.
 Print Assumptions union_leaves.
 
-Theorem difference_leaves : forall x y, sorted_cu x -> sorted_cu y ->
+Theorem difference_leaves_and_normal :
+  (forall x y, sorted_cu x -> sorted_cu y ->
   sorted_cu (cu_FromDifference x y) /\
-  forall t, leaf t -> (cov (cu_FromDifference x y) t <-> cov x t /\ ~ cov y t).
-Proof. exact C11_SetOps.difference_spec. Qed.
-Print Assumptions difference_leaves.
+  forall t, leaf t -> (cov (cu_FromDifference x y) t <-> cov x t /\ ~ cov y t)) /\
+  (forall x y, normal x -> sorted_cu y -> normal (cu_FromDifference x y)).
+Proof. split; [exact C11_SetOps.difference_spec|exact C11_SetOps.difference_normal]. Qed.
+Print Assumptions difference_leaves_and_normal.
 
-Theorem difference_normal : forall x y, normal x -> sorted_cu y -> normal (cu_FromDifference x y).
-Proof. exact C11_SetOps.difference_normal. Qed.
-Print Assumptions difference_normal.
 
 Theorem intersection_leaves : forall x y, sorted_cu x -> sorted_cu y ->
   normal (cu_FromIntersection x y) /\
@@ -144,16 +133,15 @@ Proof. exact C11_SetOps.intersection_spec. Qed.
 Print Assumptions intersection_leaves.
 
 (** * Ranges ----------------------------------------------------------------- *)
-Theorem from_range_covers_exactly_and_is_normal : forall b e, valid b -> leaf b -> limit_id e -> b <= e ->
-  normal (cu_FromRange b e) /\ forall x, leaf x -> (cov (cu_FromRange b e) x <-> b <= x < e).
-Proof. exact from_range_spec. Qed.
-Print Assumptions from_range_covers_exactly_and_is_normal.
-
-Theorem from_range_minimal : forall b e cu, valid b -> leaf b -> limit_id e -> b <= e -> Forall valid cu ->
+Theorem from_range_covers_exactly_is_normal_and_minimal :
+  (forall b e, valid b -> leaf b -> limit_id e -> b <= e ->
+  normal (cu_FromRange b e) /\ forall x, leaf x -> (cov (cu_FromRange b e) x <-> b <= x < e)) /\
+  (forall b e cu, valid b -> leaf b -> limit_id e -> b <= e -> Forall valid cu ->
   (forall x, leaf x -> (cov cu x <-> b <= x < e)) ->
-  cu_Normalize cu = cu_FromRange b e /\ (length (cu_FromRange b e) <= length cu)%nat.
-Proof. exact C11_Range.from_range_minimal. Qed.
-Print Assumptions from_range_minimal.
+  cu_Normalize cu = cu_FromRange b e /\ (length (cu_FromRange b e) <= length cu)%nat).
+Proof. split; [exact from_range_spec|exact C11_Range.from_range_minimal]. Qed.
+Print Assumptions from_range_covers_exactly_is_normal_and_minimal.
+
 
 Theorem max_tile_spec : forall c e, valid c -> u64 e -> leaf e -> rmin c < e ->
   maxtile_ok e (cu_MaxTile c e) /\ rmin (cu_MaxTile c e) = rmin c.
@@ -166,17 +154,14 @@ Proof. exact normal_shortest. Qed.
 Print Assumptions normal_form_is_shortest.
 
 (** * The library's own checks decide the predicates used above --------------- *)
-Theorem isvalid_decides_sorted_disjoint : forall l, Forall u64 l -> (cu_IsValid l = true <-> sorted_cu l).
-Proof. exact isvalid_spec. Qed.
-Print Assumptions isvalid_decides_sorted_disjoint.
+Theorem isvalid_isnormalized_decide_and_normalize_passes :
+  (forall l, Forall u64 l -> (cu_IsValid l = true <-> sorted_cu l)) /\
+  (forall l, Forall u64 l -> (cu_IsNormalized l = true <-> normal l)) /\
+  (forall cu, Forall valid cu -> cu_IsNormalized (cu_Normalize cu) = true).
+Proof. split; [exact isvalid_spec|split; [exact isnormalized_spec|exact C11_Checks.normalize_passes_IsNormalized]]. Qed.
+Print Assumptions isvalid_isnormalized_decide_and_normalize_passes.
 
-Theorem isnormalized_decides_normal : forall l, Forall u64 l -> (cu_IsNormalized l = true <-> normal l).
-Proof. exact isnormalized_spec. Qed.
-Print Assumptions isnormalized_decides_normal.
 
-Theorem normalize_passes_IsNormalized : forall cu, Forall valid cu -> cu_IsNormalized (cu_Normalize cu) = true.
-Proof. exact C11_Checks.normalize_passes_IsNormalized. Qed.
-Print Assumptions normalize_passes_IsNormalized.
 
 (** * Intersection with one cell, Denormalize ------------------------------------ *)
 Theorem intersection_with_cellid_leaves : forall x id, normal x -> valid id ->
@@ -196,9 +181,6 @@ Theorem denormalize_leaves_and_levels : forall cu minLevel levelMod,
 Proof. exact denormalize_spec. Qed.
 Print Assumptions denormalize_leaves_and_levels.
 
-Theorem level_is_thirty_minus_height : forall c s, cellform c s -> s2_CellID_Level c = 30 - s.
-Proof. exact level_form. Qed.
-Print Assumptions level_is_thirty_minus_height.
 
 (** * CellIndex (s2/cell_index.go; model Model/CellIndex.v) ----------------------
     [adds] are the (cellID, label) pairs in the order of the Add calls; [good_pair]: valid cell,
@@ -239,21 +221,20 @@ Theorem cell_index_seek : forall adds, Forall good_pair adds ->
 Proof. exact index_seek. Qed.
 Print Assumptions cell_index_seek.
 
-Theorem cell_index_sweep_reports_each_pair_exactly_once : forall adds, Forall good_pair adds ->
+Theorem cell_index_sweep_exactly_once_and_backward_move_reports_everything :
+  (forall adds, Forall good_pair adds ->
   let tree := fst (ci_Build adds) in let rs := snd (ci_Build adds) in let n := Z.of_nat (length rs) in
   forall poss, (forall p, In p poss -> 0 <= p < n) -> StronglySorted Z.le poss ->
   exists idxs, ci_sweep tree rs ci_new poss = map (pairs_of tree) idxs /\ NoDup (concat idxs) /\
-    forall i, In i (concat idxs) <-> in_chains tree rs poss i.
-Proof. exact index_sweep_exactly_once. Qed.
-Print Assumptions cell_index_sweep_reports_each_pair_exactly_once.
-
-Theorem cell_index_backward_move_reports_everything : forall adds, Forall good_pair adds ->
+    forall i, In i (concat idxs) <-> in_chains tree rs poss i) /\
+  (forall adds, Forall good_pair adds ->
   let tree := fst (ci_Build adds) in let rs := snd (ci_Build adds) in let n := Z.of_nat (length rs) in
   forall st j s, 0 <= j < n -> is_chain tree (cont_at rs j) s ->
   -1 <= ci_cutoff st -> ri_StartID rs j < ci_prevStart st ->
-  fst (ci_visit tree rs st j) = pairs_of tree s.
-Proof. exact index_backward_reports_all. Qed.
-Print Assumptions cell_index_backward_move_reports_everything.
+  fst (ci_visit tree rs st j) = pairs_of tree s).
+Proof. split; [exact index_sweep_exactly_once|exact index_backward_reports_all]. Qed.
+Print Assumptions cell_index_sweep_exactly_once_and_backward_move_reports_everything.
+
 
 (** * s2intersect.Find (model Model/Intersect.v) -----------------------------------
     [members cus x] = the sorted list of the indices of the unions covering leaf x. *)
